@@ -104,7 +104,7 @@ def run(tier, v):
         v.subspace("%s: every rename out of TMPDIR fails with EXDEV + fail/short on every create / write / rename of new content" % sc.name, nx,
                    exhaustive=not capped)
     # unusual temp-directory settings, no injection: the run either updates every file or says it failed
-    forms = ["nonexistent", "file", "relative", "trailing-slash"]
+    forms = ["nonexistent", "file", "relative", "trailing-slash", "non-utf8"]
     for n in ["S1", "S2", "S3"]:
         for form in forms:
             sc = scenarios.ALL[n]()
@@ -113,7 +113,7 @@ def run(tier, v):
             x = fsx.execute((sc, [], dict(opt, tmp_form=form)))
             ex._account(x)
             oracle(sc, base0, x)
-    v.subspace("TMPDIR given as a nonexistent path / a regular file / a relative path / with a trailing slash (no injection)", 3 * len(forms))
+    v.subspace("TMPDIR given as a nonexistent path / a regular file / a relative path / with a trailing slash / a directory whose name is not valid UTF-8 (no injection)", 3 * len(forms))
     # real cross-filesystem temp directory (no injection at all)
     disk = disk_scratch_dir("c08")
     import os
